@@ -1878,6 +1878,10 @@ func gDetectQuirks(o *vOut) {
 	if p := gField(run("ct=r,nt=u4,um=-,su=0,tu=1,sr=-,cg=1,mi=733,"+base, "0:u:g4.1", "gather", "turnreply 0 ok1", "ifaces 0:u:g4.1+g4.2", "adv 733", "close"), "pend"); p != "-" && p != "" {
 		q = append(q, "11")
 	}
+	// C09-G12: Close returns while the gatherer of a cycle that Restart superseded still waits for its TURN allocation
+	if p := gField(run("ct=r,nt=u4,um=-,su=0,tu=1,sr=-,"+base, "0:u:g4.1", "gather", "restart", "gather", "turnreply 1 ok1", "close"), "pend"); p != "-" && p != "" {
+		q = append(q, "12")
+	}
 	if len(q) > 0 {
 		gQuirks = strings.Join(q, "+")
 	}
